@@ -1,6 +1,7 @@
 package props
 
 import (
+	"io"
 	"crypto/tls"
 	"fmt"
 	"net"
@@ -10,6 +11,7 @@ import (
 	"time"
 
 	"github.com/mholt/caddy-l4/layer4"
+	"github.com/mholt/caddy-l4/modules/l4tee"
 
 	"verif/sim/simnet"
 	"verif/sim/worlds"
@@ -26,6 +28,8 @@ const (
 	clTwoStep  = 'P' // matched by a non-terminal route (consumes one byte), then by a terminal route
 	clSub      = 'S' // matched by a route whose subroute falls through, then falls through the rest
 	clTee      = 'W' // matched by a non-terminal route whose handler wraps the connection (tee), then falls through
+	clPart     = 'Q' // matched by a non-terminal route whose handler reads part of the prefetched bytes itself, then falls through
+	clTeeTerm  = 'Z' // matched by a terminal route: tee, then a handler that returns without reading to EOF
 )
 
 type c13Conn struct {
@@ -90,6 +94,21 @@ func runC13(t *testing.T, e *worlds.Env, tier string) (bool, any) {
 	oldProcs := runtime.GOMAXPROCS(0)
 	defer runtime.GOMAXPROCS(oldProcs)
 	handedWithPrefetch := 0
+	partK := 0
+	teeTermBranches := map[string]bool{}
+	// goroutines of the listener wrapper still alive, without the tee branches judged separately
+	lwLeft := func() []string {
+		var out []string
+		live := liveWith(e, "lw")
+		lk()
+		defer ulk()
+		for _, g := range live {
+			if !teeTermBranches[g] {
+				out = append(out, g)
+			}
+		}
+		return out
+	}
 	var matchTimeout time.Duration
 	e.Run(t, func() func() bool {
 		e.N.Cfg = netKnobs(e)
@@ -162,6 +181,27 @@ func runC13(t *testing.T, e *worlds.Env, tier string) (bool, any) {
 		// through the rest of the list, to the wrapped listener
 		subS := HSpec{Kind: "subroute", Name: "subS", Sub: &RLSpec{Routes: []RSpec{{Handlers: []HSpec{{Kind: "mark", Name: "inS"}}}}}}
 		subRoute := layer4.VerifNewRoute([]layer4.MatcherSet{{first(clSub, 1, 1)}}, []layer4.NextHandler{b.Handler(&subS, sig)})
+		// a handler that strips a preamble: it reads k of the bytes prefetched for matching straight
+		// from the connection and passes the same connection on; the rest falls through to Accept
+		partNeed := tp.Pick("part-need", 6, 40, 700, 3000)
+		partK = 1 + tp.Choose(partNeed-1, "part-k")
+		pconQ := HSpec{Kind: "consume", Name: "pconQ", K: partK}
+		partRoute := layer4.VerifNewRoute([]layer4.MatcherSet{{first(clPart, partNeed, 1)}}, []layer4.NextHandler{b.Handler(&pconQ, sig)})
+		// tee in front of a terminal handler that ends without reading its connection to EOF (as echo
+		// does after a failed write, or proxy when no upstream can be dialled)
+		branchZ := layer4.NextHandlerFunc(func(cx *layer4.Connection, _ layer4.Handler) error {
+			me := e.S.Name()
+			lk()
+			teeTermBranches[me] = true
+			ulk()
+			_, _ = io.Copy(io.Discard, cx)
+			return nil
+		})
+		earlyZ := layer4.NextHandlerFunc(func(cx *layer4.Connection, _ layer4.Handler) error {
+			_, _ = cx.Read(make([]byte, 1))
+			return nil
+		})
+		teeTermRoute := layer4.VerifNewRoute([]layer4.MatcherSet{{first(clTeeTerm, 1, 1)}}, []layer4.NextHandler{l4tee.VerifNew([]layer4.NextHandler{branchZ}, e.Log), earlyZ})
 		teeLast := tp.Prob(1, 2, "tee-last")
 		routes := layer4.RouteList{
 			layer4.VerifNewRoute([]layer4.MatcherSet{{first(clNever, 1<<30, 2)}}, []layer4.NextHandler{b.Handler(&term, sig)}),
@@ -182,7 +222,7 @@ func runC13(t *testing.T, e *worlds.Env, tier string) (bool, any) {
 		if teeLast {
 			routes = append(routes, teeRoute)
 		}
-		routes = append(layer4.RouteList{subRoute}, routes...)
+		routes = append(layer4.RouteList{subRoute, partRoute, teeTermRoute}, routes...)
 		nln := 1
 		if tp.Prob(1, 4, "two-listeners") {
 			nln = 2
@@ -203,7 +243,7 @@ func runC13(t *testing.T, e *worlds.Env, tier string) (bool, any) {
 		<-ready
 		// clients
 		n := 1 + tp.Choose(7, "nconn")
-		classes := []byte{clFall, clFall, clTerminal, clNever, clError, clFull, clTLS, clTwoStep, clTee, clSub}
+		classes := []byte{clFall, clFall, clTerminal, clNever, clError, clFull, clTLS, clTwoStep, clTee, clSub, clPart, clTeeTerm}
 		for i := 1; i <= n; i++ {
 			cls := classes[tp.Choose(len(classes), "class")]
 			plan := &worlds.ClientPlan{ID: i, Addr: worlds.ClientAddr(i), End: worlds.EndHalfClose}
@@ -215,6 +255,9 @@ func runC13(t *testing.T, e *worlds.Env, tier string) (bool, any) {
 			}
 			if minLen := max(needFall, 5); (cls == clFall || cls == clTLS || cls == clSub) && ln2 < minLen {
 				// enough bytes for every route to decide (the tls matcher needs a 5-byte record header)
+				ln2 = minLen + tp.Choose(50, "len-extra")
+			}
+			if minLen := partNeed + max(needFall, 5); cls == clPart && ln2 < minLen {
 				ln2 = minLen + tp.Choose(50, "len-extra")
 			}
 			switch cls {
@@ -230,6 +273,9 @@ func runC13(t *testing.T, e *worlds.Env, tier string) (bool, any) {
 				m.App[0] = clFall // plaintext falls through
 			} else {
 				m.App[0] = cls
+			}
+			if cls == clPart {
+				m.App[partK] = clFall // what is left after the preamble falls through
 			}
 			if cls == clTwoStep {
 				if len(m.App) < 8 {
@@ -382,11 +428,24 @@ func runC13(t *testing.T, e *worlds.Env, tier string) (bool, any) {
 			lk()
 			cd := consumersDone == len(wrappeds)
 			ulk()
-			return cd && workloadDone() && len(liveWith(e, "lw")) == 0
+			return cd && workloadDone() && len(lwLeft()) == 0
 		}
 	}, func() {
-		left := liveWith(e, "lw")
+		left := lwLeft()
 		sample.Leftover = left
+		// the branch goroutine of a tee whose main chain ended without reading to EOF or closing its
+		// wrapper: nothing closes the pipe it reads from (known finding K02)
+		if !e.S.Capped || e.S.CappedBy == "time" {
+			var stuckBranches []string
+			for _, g := range liveWith(e, "lw") {
+				if teeTermBranches[g] {
+					stuckBranches = append(stuckBranches, g)
+				}
+			}
+			if len(stuckBranches) > 0 {
+				e.S.Fail("C13/tee-branch-left", "tee+early-return", "the listener is closed and every connection has ended, but the branch handlers of %d connections that went through tee in front of a handler returning before EOF are still blocked reading their pipe: %v", len(stuckBranches), stuckBranches)
+			}
+		}
 		for _, cs := range conns {
 			cc := c13Conn{Class: string(cs.class), Len: len(cs.model.App), Accepted: cs.accepts, ReadLate: cs.late.String()}
 			if cs.client.End != nil {
@@ -409,14 +468,14 @@ func runC13(t *testing.T, e *worlds.Env, tier string) (bool, any) {
 			}
 			srvClosed := cs.client.End.Peer().IsClosed()
 			switch cs.class {
-			case clTerminal, clNever, clError, clFull, clTwoStep:
+			case clTerminal, clNever, clError, clFull, clTwoStep, clTeeTerm:
 				if cs.accepts > 0 {
 					e.S.Fail("C13/delivered-consumed", "lw", "conn %d (class %c: consumed or rejected by layer4) was delivered to Accept %d times", m.ID, cs.class, cs.accepts)
 				}
 				if !srvClosed {
 					e.S.Fail("C13/not-closed", "lw", "conn %d (class %c) was neither delivered nor closed", m.ID, cs.class)
 				}
-			case clFall, clTLS, clTee, clSub:
+			case clFall, clTLS, clTee, clSub, clPart:
 				if cs.accepts > 1 {
 					e.S.Fail("C13/delivered-twice", "lw", "conn %d was delivered to Accept %d times", m.ID, cs.accepts)
 				}
